@@ -137,6 +137,9 @@ func (spm *BasePublicMaterial[E, S]) UnmarshalCBOR(data []byte) error {
 	if err != nil {
 		return errs.Wrap(err).WithMessage("failed to unmarshal BasePublicMaterial")
 	}
+	if dto == nil {
+		return ErrInvalidArgument.WithMessage("BasePublicMaterial is nil")
+	}
 	out, err := NewBasePublicMaterial(dto.MSP, dto.VerificationVector)
 	if err != nil {
 		return errs.Wrap(err).WithMessage("failed to create BasePublicMaterial from deserialized data")
